@@ -104,6 +104,13 @@ class P:
         if k < 0.45:      # structured, well-formed, with/without trailing octets
             c = rng.randint(1, 30)
             p = self.packet(rng, c, distinct=rng.random() < 0.3, family=self.addr_family(rng) if rng.random() < 0.25 else None) + bytes(rng.randrange(256) for _ in range(rng.choice([0, 0, 1, 17, 47, 48, 49])))
+        elif k < 0.5:     # several complete export packets back to back in ONE datagram (relays do that): only the first one's Count flows are announced
+            c = rng.randint(1, 29)
+            p = self.packet(rng, c, distinct=rng.random() < 0.5)
+            for _ in range(rng.choice([1, 1, 2])):
+                c2 = rng.randint(1, 30 - 0)
+                p += self.packet(rng, c2, distinct=rng.random() < 0.5)[:rng.choice([24 + 48 * c2, 24 + 48 * c2, 24 + 48 * c2 - 1, 24])]
+            p = p[:1400 + 24 + 48 * 30]
         elif k < 0.6:     # count / version variants
             c = rng.choice([0, 31, 32, 255, 65535, 1, 30])
             v = rng.choice([5, 5, 4, 6, 9, 10, 0, 65535])
